@@ -1022,6 +1022,7 @@ fn soak(sys: &'static str, cap: usize, steps: usize) -> Option<(Case, Mismatch)>
 }
 
 fn main() {
+    let _final_guard = common::FinalGuard::new();
     let ctx: &'static Ctx = Ctx::leak("C06", "release");
     if let Some(v) = ctx.replay_case() {
         let case = Case::from_json(&v).unwrap_or_else(|| {
